@@ -249,6 +249,25 @@ def main(chk: C.Check, build_: C.Build) -> None:
                         {"source": src, "error": type(err).__name__, "token_start": tok.start,
                          "how": "Environment().from_string(source).render(); exc.context(), detailed_message(), str()"})
 
+    # static-analysis variable spans and StrictUndefined error locations (nested paths)
+    var_spans = 0
+    path_checks = 0
+    for src in G.corpus(C.REPO):
+        if len(src) > 600:
+            continue
+        cnt, vfail = L.variable_spans(src)
+        var_spans += cnt
+        if vfail:
+            chk.finding("oracle:" + vfail.split(":")[0], vfail,
+                        {"source": src, "how": "Environment().from_string(source).analyze() / analyze_async(); source[span] re-parsed"})
+    for src, nodes, must in G.nested_path_cases(C.rng("c17-paths", chk.tier), chk.tier):
+        cnt, vfail = L.nested_path_check(src, nodes, must)
+        path_checks += cnt
+        if vfail:
+            chk.finding("oracle:" + vfail.split(":")[0], vfail,
+                        {"source": src, "paths": [{k: nd[k] for k in ("root", "start", "text")} for nd in nodes],
+                         "how": "analyze(); Environment(undefined=StrictUndefined) render / render_async with all roots but one bound"})
+
     # correspondence, in groups that share base definitions
     items.sort(key=lambda x: x["base"])
     for gi in range(0, len(items), GROUP):
@@ -268,7 +287,8 @@ def main(chk: C.Check, build_: C.Build) -> None:
                  "(i.e. the scanner left lex_markup's CONTENT branch)"),
         "samples": samples,
         "distribution": {"families": fam, "outcomes": outcomes, "bases": len(cs.bases), "ast_nodes_and_expressions_checked": ast_nodes,
-                         "error_locations_checked": loc_checked, "of_which_on_a_line_after_the_first": loc_line_gt1,
+                         "error_locations_checked": loc_checked, "analysis_variable_spans_checked": var_spans,
+                         "nested_path_span_and_undefined_location_checks": path_checks, "of_which_on_a_line_after_the_first": loc_line_gt1,
                          "of_which_at_column_0_of_a_later_line": loc_col0_line_gt1,
                          "markup_token_classes_seen": sorted(kinds_seen)},
         "alphabet": "all of Unicode for the \\s/\\w/linebreak tables (compared exhaustively with CPython); generated sources use ASCII plus "
